@@ -192,7 +192,27 @@ impl Metainfo {
             info_hash: Self::calculate_hash(data)?,
         };
 
+        // Accessors divide by the piece length and add up the file lengths
+        if metainfo.piece_length == 0 {
+            return Err(Error::MetaIncorrectOrMissing("piece length"));
+        }
+        if !Self::total_length_fits(&metainfo.files) {
+            return Err(Error::MetaInvalidU64("length"));
+        }
+
         Ok(metainfo)
+    }
+
+    fn total_length_fits(files: &Vec<File>) -> bool {
+        let mut sum: u64 = 0;
+        for file in files.iter() {
+            sum = match sum.checked_add(file.length) {
+                Some(sum) => sum,
+                None => return false,
+            };
+        }
+
+        true
     }
 
     /// Find value for "announce" key in pre-parsed dictionary (converted to HashMap).
